@@ -90,7 +90,8 @@ class C18(PropBase):
     # ------------------------------------------------------------------ cases
     def gen_cases(self, tier, seed):
         rng = Rng(seed)
-        T = names_table()
+        TALL = names_table()
+        T = {k: v for k, v in TALL.items() if not k.startswith("$")}
         cases = []
         dist = {"by_type": {}, "unknown_names": 0}
         for variant in sorted(T):
@@ -261,10 +262,35 @@ class C18(PropBase):
                 cases.append("%s %s A %d - %d" % (variant, UNKNOWN[1], 1, fw))
             dist["fill_cases"] = dist.get("fill_cases", 0) + nf + 6
             dist["by_type"][variant] = len(cases) - n0
+        # ---- MinidumpContext::read: which context type is chosen (`R <arch> <fill> <len>`; every 32-bit word of the buffer is
+        #      the fill word, so the context_flags of whichever type the architecture selects is the word)
+        rd = TALL["$read"]
+        cpuf = sorted(set(next(iter(T.values()))["cpu_flags"].values()))
+        sizes = sorted({t["read_size"] for t in T.values() if "read_size" in t})
+        arch_nums = sorted(set(rd["archs"].values())) + [11, 13, 77, 0x7fff, 0x8000, 0x8005, 0xfffe]
+        own_of = {a: T[v]["cpu_flags"][T[v]["type"]] for v in T for a in T[v].get("read_archs", [])}
+        size_of = {a: T[v]["read_size"] for v in T for a in T[v].get("read_archs", [])}
+        nr = 0
+        for a in arch_nums:
+            own = own_of.get(a, 0x10000)
+            fl = cpuf + [0, 0xffffffff, own | 1, own | 0x40, own | 0x3f, own | 0xff, own | 0x200, own | 0x800, own | 0x4000,
+                         own | cpuf[(a + 1) % len(cpuf)], own | cpuf[(a + 5) % len(cpuf)], own >> 1, (own << 1) & 0xffffffff, own ^ 0xffffffff]
+            for f in dict.fromkeys(fl):
+                cases.append("R %d %d 8192" % (a, f))
+                nr += 1
+            sz = size_of.get(a, 716)
+            for ln in dict.fromkeys([0, 1, 4, sz - 4, sz - 1, sz, sz + 1, sz + 4] + sizes + [s_ - 1 for s_ in sizes]):
+                for f in (own, own | 0x7f):
+                    cases.append("R %d %d %d" % (a, f, ln))
+                    nr += 1
+        dist["read_cases"] = nr
         # de-duplicate S:a,a (a HashSet cannot hold a name twice)
         out = []
         for c in cases:
             f = c.split(" ")
+            if f[0] == "R":
+                out.append(c)
+                continue
             if f[2].startswith("S:") and f[2] != "S:":
                 ms = f[2][2:].split(",")
                 f[2] = "S:" + ",".join(dict.fromkeys(ms))
@@ -276,7 +302,45 @@ class C18(PropBase):
         return ans.split("|", 1)[0]
 
     # ------------------------------------------------------------------ oracle: the property on the live methods' answers
+    # the context type of an architecture (WinNT.h PROCESSOR_ARCHITECTURE_* numbers and Breakpad's extensions) - independent
+    # of the translated arms
+    ARCH_VARIANT = {0: "X86", 10: "X86", 9: "Amd64", 3: "Ppc", 0x8002: "Ppc64", 0x8001: "Sparc", 5: "Arm", 12: "Arm64",
+                    0x8003: "OldArm64", 1: "Mips"}
+
+    def _oracle_read(self, case, ans):
+        _, arch, fill, ln = case.split(" ")
+        arch, fill, ln = int(arch), int(fill), int(ln)
+        if ans.startswith("P;;"):
+            return "MinidumpContext::read panicked: %s" % ans[3:200]
+        d = parse(ans)
+        T = names_table()
+        want = self.ARCH_VARIANT.get(arch)
+        who = "MinidumpContext::read(architecture %#x, %d bytes, every word %#x)" % (arch, ln, fill)
+        rdv = d.get("rd")
+        if rdv in ("RF", "UC"):
+            if want is not None and ln >= 8192 and (fill & 0xffffff00) == T[want]["cpu_flags"][T[want]["type"]]:
+                return "%s: a full-size buffer carrying the type's own CPU flag is refused (%s); %s is a supported context type" % (who, rdv, want)
+            if want is None and rdv != "UC":
+                return "%s: an architecture without a context type is not reported as UnknownCpuContext" % who
+            return None
+        if rdv not in T or rdv.startswith("$") or any(k not in d for k in ("rsz", "rip", "va")):
+            return "unparseable answer " + ans[:120]
+        if rdv != want:
+            return "%s: produced a %s context; the architecture's context type is %s" % (who, rdv, want)
+        t = T[rdv]
+        if (fill & 0xffffff00 & T["$read"]["allbits"]) != t["cpu_flags"][t["type"]]:
+            return "%s: accepted as %s although the CPU part of context_flags is not %s" % (who, rdv, t["type"])
+        if d["va"] != "1":
+            return "%s: a freshly read context does not have validity All" % who
+        if int(d["rsz"]) * 8 != t["width"]:
+            return "%s: register_size %s on the %s context" % (who, d["rsz"], rdv)
+        if int(d["rip"]) != (fill if t["width"] == 32 else (fill << 32) | fill):
+            return "%s: get_instruction_pointer() = %s on a context whose every word is %#x" % (who, d["rip"], fill)
+        return None
+
     def oracle(self, case, ans, profile):
+        if case.startswith("R "):
+            return self._oracle_read(case, ans)
         variant, name, vspec, value = case.split(" ")[:4]
         if ans.startswith("P;;"):
             return "%s: a method panicked outside the guarded reads: %s" % (variant, ans[3:200])
@@ -386,7 +450,7 @@ class C18(PropBase):
         return None
 
     def nontrivial(self, case, ans):
-        return ";st=1;" in ans
+        return ";st=1;" in ans or (ans.startswith("rd=") and not ans.startswith(("rd=RF", "rd=UC")))
 
 
 PROP = C18()
